@@ -7,6 +7,17 @@ BASE_NOTE = ("Trusted: Lean 4.33.0 kernel (axioms propext, Classical.choice, Quo
              "tied to /repo's working tree by running both on the same inputs on every run.")
 
 CHECKS = {
+    "C03": {
+        "category": "proof",
+        "text": "Lean theorems about Model/{CollVarint,Zigzag,Names,Details}.lean: prefix-varint, predictive-zigzag, string, "
+                "sample-name, contig-name (any table of names over bytes 1..127), 5-stream descriptor (any table, ids < i32::MAX, "
+                "segment_size+k <= 2^31) round trips, predictor-table synchronisation, 50-sample batches with the cursor, "
+                "registration order. The models are executed against the real (de)serialisers through the H1 wrappers on "
+                "grammar-generated name tables, descriptor tables, malformed streams and 1..130-sample catalogues; the "
+                "catalogue round trip is also evaluated on the real code directly and through a real archive file.",
+        "design_ref": "DESIGN.md §5 C03, Appendix A.2",
+        "technique": "Lean 4 proof over byte-level models + byte-exact correspondence through hook H1",
+    },
     "C20": {
         "category": "proof",
         "text": "Lean theorems about Model/Kmer.lean (UInt64 shifts/masks exactly as kmer.rs) for all k in 1..32 and all "
